@@ -42,7 +42,7 @@ def generate(rng, tier):
     for _ in range(n // 2):
         vb, rc = R.viewbox(rng), R.rect(rng)
         cb, nb = rng.choice([0, 5, 6, 10, 57, 58, 62, 63, rng.below(64)]), rng.choice([0, 5, 6, 10, 57, 58, 62, 63, rng.below(64)])
-        ns = rng.choice([0, 1, 2, 2, 3, 3, 4, 6, 20])
+        ns = rng.choice([0, 1, 2, 2, 3, 3, 4, 6, 20, 57, 58, 59, 60, 63])
         stops = R.good_stops(rng, ns)
         sel = rng.below(64)
         adj = rng.below(7)
@@ -71,6 +71,28 @@ def generate(rng, tier):
             body = ["R"] + vb + ["-"] + R.gradient_regs(rng, cb, nb, bad, rng.below(2), rng.below(4), sel=sel)
             body += R.path(rng, verbs=["L"], n=2, adj=0) + ["CS", "1", "CR", "0", "0", "#ff0000ff"] + R.path(rng, verbs=["L"], n=2, adj=0)
             g["invalid-gradients"].append("REN %d %d %d %d " % tuple(rc) + " ".join(body))
+    # the same gradient descriptor used by two paths with a stop colour / offset rewritten in between
+    g["gradient-reuse"] = []
+    for _ in range(n // 8):
+        vb, rc = R.viewbox(rng), R.rect(rng)
+        cb, nb = rng.choice([10, 20, 57, 63]), rng.choice([10, 20, 57, 63])
+        ns = rng.choice([2, 3, 4])
+        stops = R.good_stops(rng, ns)
+        body = ["R"] + vb + [G.rpalette(rng)] + R.gradient_regs(rng, cb, nb, stops, rng.below(2), rng.below(4), sel=0)
+        body += R.path(rng, verbs=["L", "l"], n=2, adj=0)
+        k = rng.below(ns)
+        what = rng.below(4)
+        if what == 0:      # another valid colour
+            body += ["CS", str((cb + k) % 64), "CR", "0", "0", "#" + G.rpremul(rng), "CS", "0"]
+        elif what == 1:    # a non-premultiplied colour: the gradient becomes invalid
+            body += ["CS", str((cb + k) % 64), "CR", "0", "0", "#ff000080", "CS", "0"]
+        elif what == 2:    # an offset out of order
+            body += ["NS", str((nb + k) % 64), "NR", "0", "0", C.fh(2.0)]
+        else:              # first make it invalid, draw, then repair it
+            body += ["CS", str((cb + k) % 64), "CR", "0", "0", "#ff000080", "CS", "0"] + R.path(rng, verbs=["L"], n=2, adj=0)
+            body += ["CS", str((cb + k) % 64), "CR", "0", "0", "#" + stops[k][1], "CS", "0"]
+        body += R.path(rng, verbs=["L", "l"], n=2, adj=0)
+        g["gradient-reuse"].append("REN %d %d %d %d " % tuple(rc) + " ".join(body))
     g["second-reset"] = []
     for _ in range(300 if tier == "quick" else 5000):
         vb, rc = R.viewbox(rng), R.rect(rng)
